@@ -568,6 +568,9 @@ class SendWorld:
             if mid == -4:
                 if out == 0:
                     self.out(['h'])
+                for c in self.consumers:      # HELLO goes out on every PUB: whoever is subscribed there has now heard the publisher
+                    if c['out'] == out:
+                        c['heard'] = True
             elif mid == -2:
                 if out == 0:
                     self.out(['O', env.get('xtra')])
@@ -631,7 +634,13 @@ class SendWorld:
         c = rng.choice(self.consumers)
         base = self.snd.min_send_id
         r = rng.random()
-        if r < 0.04:
+        plan = getattr(self, 'plan', None)
+        if plan:
+            # a directed prefix (see run_sender_case): who asks / leaves next and how far behind it is
+            kind, k, back = plan.pop(0)
+            c = self.consumers[k]
+            mid = -3 if kind == 'close' else max(base - 1 - back, -1)
+        elif r < (0.12 if getattr(self.snd, 'balance', False) else 0.04):
             mid, kind = -3, 'close'
         elif r < 0.07:
             mid, kind = -2, 'oob'
@@ -654,6 +663,11 @@ class SendWorld:
         want = r < (0.75 if timeout is None or timeout > 0 else 0.5)
         if timeout is None:
             want = True
+        plan = getattr(self, 'plan', None)
+        if plan:
+            want = plan[0][0] != 'none'
+            if not want:
+                plan.pop(0)
         if want and self.consumers:
             q = self.gen_request()
             if rng.random() < 0.15:
@@ -683,10 +697,25 @@ def run_sender_case(rng, budget=70, adversarial=False):
     nout = rng.choice([1, 1, 2, 3])
     balance = rng.random() < 0.3
     ncons = rng.randint(1, 4)
+    if balance and rng.random() < 0.7:            # a splitter: 2-4 branches, a worker per branch (plus at most one extra)
+        nout = rng.choice([2, 3, 3, 4])
+        ncons = nout + rng.choice([0, 0, 1])
     w = SendWorld(rng, nout, budget, adversarial)
     for k in range(ncons):
-        w.consumers.append(dict(cid=rng.choice([1, 2, 3]) if rng.random() < 0.3 else k + 1, uid=k, out=rng.randrange(nout),
+        w.consumers.append(dict(cid=rng.choice([1, 2, 3]) if rng.random() < 0.3 else k + 1, uid=k, out=(k % nout if balance else rng.randrange(nout)),
                                 eph=rng.choice([0, 0, 0, 1, 1]), heard=False))
+    if balance and nout >= 3 and ncons >= nout and rng.random() < 0.35:
+        # directed prefix for a splitter: every worker gets known (two rounds: first contact + request) and is served, then all ask
+        # again - the one on the LAST output being furthest behind, i.e. the branch the splitter will choose - and that worker
+        # leaves (CLOSE) as the last thing the splitter reads before it sends.  The frame still goes to exactly one branch.
+        lv = nout - 1
+        order = [k for k in range(nout) if k != lv] + [lv]
+        w.plan = [('req', k, 0) for k in order] + [('none', 0, 0)] + [('req', k, 0) for k in order] + [('none', 0, 0)]
+        for _ in range(rng.randint(1, 3)):
+            w.plan += [('req', k, 0 if k != lv else 1) for k in order] + [('close', lv, 0), ('none', 0, 0)]
+            w.plan += [('req', lv, 0), ('none', 0, 0), ('req', lv, 0), ('none', 0, 0)]
+        for k in range(nout):
+            w.consumers[k].update(cid=k + 1, out=k, eph=0)
     required = [c['cid'] for c in w.consumers if rng.random() < 0.3]
     if rng.random() < 0.1:
         required.append(9)    # a required output that never shows up
@@ -802,7 +831,7 @@ def send_oracle(run, case, props):
         for o in it[1]:
             if o[0] == 'P' and o[-1] == 'malformed' and 'C01' in props:
                 run.violation('sender:malformed-publish', 'one publish carried differing ids/topic lists or no single heartbeat', summary)
-    if props & {'C04', 'C06'} and not cfg['balance']:
+    if props & {'C04', 'C05', 'C06'} and not cfg['balance']:
         # the two halves of flow control on the publisher's client table, judged on the state digests:
         #  (a) a tracked client leaves the table only by its own CLOSE or after CONN_TIMEOUT of silence (C04_eviction_only_after_timeout)
         #  (b) a frame goes out only when every tracked synchronized client has an unanswered request (C04_gate_needs_every_sync_client)
@@ -825,6 +854,25 @@ def send_oracle(run, case, props):
                                       'client c%d/u%d (last heard %s ms, now %s ms) left the wait set at item %d without CLOSE or timeout' % (key[0], key[1], c[3], None if now_ms is None else now_ms // 1_000_000, k), summary)
                 pubs_here = [o for o in it[1] if o[0] == 'P']
                 is_push = _in_push_call(case['items'], k)
+                # (c) a request arms its client: the re-request a waiting consumer sends every poll interval is the protocol's only
+                #     recovery from a lost frame, so it must count even if it repeats the id of the previous one
+                if req and req['mid'] > -2 and not pubs_here:
+                    key = (req['cid'], req['uid'])
+                    if key in after and key in prev and not after[key][4]:
+                        run.violation('sender:request-not-armed client=c%d/u%d' % key,
+                                      'item %d: a request (mid %d) from the tracked client c%d/u%d was read, nothing was published, and the client is not marked as waiting' % (k, req['mid'], key[0], key[1]), summary)
+                # (d) a synchronized request at or above the id being sent is adopted whoever else is in the table
+                #     (C06_adopt_ids / Sender_Safety.on_request_adopt): the publisher fast-forwards to the id after it
+                if req and req['mid'] > -2 and not req['eph'] and ((req['cid'], req['uid']) in prev or not req['new']):
+                    cur = None
+                    for j in range(k, -1, -1):
+                        rj = case['items'][j][3]
+                        if rj[0] == 'call':
+                            cur = rj[1][0] if rj[1] is not None else (case['items'][j - 1][2][0] if j else 0)
+                            break
+                    if cur is not None and req['mid'] >= cur and dig[0] != req['mid'] + 1:
+                        run.violation('sender:newer-id-not-adopted client=c%d/u%d' % (req['cid'], req['uid']),
+                                      'item %d: the synchronized client c%d/u%d asked for the id after %d while id %d was being sent, and the publisher goes on with min_send_id %d' % (k, req['cid'], req['uid'], req['mid'], cur, dig[0]), summary)
                 if pubs_here and not is_push:
                     for key, c in prev.items():
                         asked_now = bool(req) and (req['cid'], req['uid']) == key and req['mid'] > -2
@@ -946,15 +994,17 @@ CORPUS_RECV = [
     # W2: recv() times out after advancing to a newer id; the next call re-derives the expected id; a late older message is accepted
     dict(name='W2', cfg=dict(balance=False, low_latency=False,
                              srcs=[dict(eph=0, mode=[['a', 'a']]), dict(eph=0, mode=[['b', 'b']])]),
-         script=[['call', 5, 100, 0], ['deliver', 0, _m('/a/', 10, 6, ['a'], 1)], ['poll', [0], 0],
+         script=[['call', 5, 100, 0], ['deliver', 0, _m('/a/', 10, 6, ['a'], 1)], ['poll', [0], 0], ['poll', [], 0],
                  ['poll', [], 100000000], ['call', 5, 100, 100000000],
-                 ['deliver', 1, _m('/b/', 20, 5, ['b'], 2)], ['poll', [1], 100000000], ['poll', [], 100000000]]),
+                 ['deliver', 1, _m('/b/', 20, 5, ['b'], 2)], ['poll', [1], 100000000], ['poll', [], 100000000],
+                 ['poll', [], 200000000]]),
     # W3: one (balanced) source steps back in ids across a timed-out recv(): two ids inside one source's portion
     dict(name='W3', cfg=dict(balance=True, low_latency=False,
                              srcs=[dict(eph=0, mode=[['a', 'a'], ['b', 'b']]), dict(eph=0, mode=[['a', 'a'], ['b', 'b']])]),
-         script=[['call', 0, 100, 0], ['deliver', 0, _m('/a/', 10, 1, ['a', 'b'], 1, 1)], ['poll', [0], 0],
+         script=[['call', 0, 100, 0], ['deliver', 0, _m('/a/', 10, 1, ['a', 'b'], 1, 1)], ['poll', [0], 0], ['poll', [], 0],
                  ['poll', [], 100000000], ['call', 0, 100, 100000000],
-                 ['deliver', 0, _m('/b/', 10, 0, ['a', 'b'], 2, 1)], ['poll', [0], 100000000], ['poll', [], 100000000]]),
+                 ['deliver', 0, _m('/b/', 10, 0, ['a', 'b'], 2, 1)], ['poll', [0], 100000000], ['poll', [], 100000000],
+                 ['poll', [], 200000000]]),
     # W4: an ephemeral source keeps a partial set across the publisher's CLOSE; the new incarnation's id 0 completes it
     dict(name='W4', cfg=dict(balance=False, low_latency=False, srcs=[dict(eph=1, mode=[['a', 'a'], ['b', 'b']])]),
          script=[['call', None, None, 0], ['deliver', 0, _m('/a/', 10, 7, ['a', 'b'], 1)], ['poll', [0], 0],
